@@ -9,8 +9,8 @@ CFG = """CONSTANTS
   Owners = {"o1","o2"}
   Data <- MCData
   Presets <- MCPresets
-  ValidSchemes = {"sha256","x509","sha1"}
-  Decodable = {"sha256","x509"}
+  ValidSchemes = {"sha256","x509","sha1","extern"}
+  Decodable = {"sha256","x509","extern"}
   Depth = %d
 """
 
@@ -55,7 +55,7 @@ def histories_simulated(c, depth, num, load=False):
 
 def random_histories(c, n, length):
     """Histories longer than the exhaustive bound, drawn from the same operation alphabet."""
-    data = {"sha256": ["h1", "h2", "h31"], "x509": ["c1", "c2", "c3", "p1", "p3", "p1b", "p3n"], "sha1": ["s1"], "bogus": ["u1"]}
+    data = {"sha256": ["h1", "h2", "h31"], "x509": ["c1", "c2", "c3", "p1", "p3", "p1b", "p3n"], "sha1": ["s1"], "bogus": ["u1"], "extern": ["e1"]}
     hs = []
     for _ in range(n):
         ops, have_sl, sl_t, sl_n = [], False, None, 0
@@ -63,11 +63,11 @@ def random_histories(c, n, length):
             k = c.rng.random()
             o = c.rng.choice(["o1", "o2"])
             if k < 0.62:
-                t = c.rng.choice(["sha256", "sha256", "x509", "x509", "x509", "sha1", "bogus"])
+                t = c.rng.choice(["sha256", "sha256", "x509", "x509", "x509", "sha1", "bogus", "extern"])
                 d = c.rng.choice(data[t])
                 ops.append({"op": c.rng.choice(["append", "append", "remove", "query"]), "t": t, "o": o, "d": d})
             elif k < 0.70 and not have_sl:
-                sl_t = c.rng.choice(["sha256", "x509", "sha1"])
+                sl_t = c.rng.choice(["sha256", "x509", "sha1", "extern"])
                 ops.append({"op": "listnew", "t": sl_t, "o": "-", "d": "-"})
                 have_sl, sl_n = True, 0
             elif k < 0.85 and have_sl:
